@@ -245,7 +245,7 @@ def one(rng, api: int, ops: list, zone="UTC", t0=None, order=None, inst2=None):
 
 
 # ----------------------------------------------------------------------------------------
-def grid_type1_ops(ctx: Ctx, rng, zone: str, now: int) -> list[dict]:
+def grid_type1_ops(ctx: Ctx, rng, zone: str, now: int, sweep: bool = True) -> list[dict]:
     """Every type-1 operation over its boundary grid (one op dict each)."""
     ops = []
     for m in MINUTES:
@@ -256,7 +256,8 @@ def grid_type1_ops(ctx: Ctx, rng, zone: str, now: int) -> list[dict]:
     secs = list(SECS)
     if not ctx.quick:
         secs += list(range(3600 - 120, 3600 + 121)) + list(range(86340 - 120, 86400 + 121))
-    secs += [60 * m for m in range(60, 1440)]        # every whole minute of the accepted range 1 h .. 23 h 59 min
+    if sweep:
+        secs += [60 * m for m in range(60, 1440)]        # every whole minute of the accepted range 1 h .. 23 h 59 min
     for s in secs:
         ops.append(op1(rng, "set_auto_shutdown", {"secs": s}))
     for cps in names(ctx):
@@ -347,9 +348,12 @@ class C01(ClientProp):
         out = []
         z = "UTC"
         t0 = 1790553600.5
-        ops = grid_type1_ops(Ctx("quick", ctx.seed), rng, z, int(t0))
+        ops = grid_type1_ops(Ctx("quick", ctx.seed), rng, z, int(t0), sweep=not ctx.quick)
         rng.shuffle(ops)
-        for ch in chunks(ops[: ctx.pick(220, len(ops))], 20):
+        # the frames whose length depends on the argument (names) are always part of the run; a sample of the others in the quick tier
+        named = [o for o in ops if o["op"] == "set_device_name"]
+        others = [o for o in ops if o["op"] != "set_device_name"]
+        for ch in chunks(named + others[: ctx.pick(220, len(others))], 20):
             out.append(one(rng, 1, ch, zone=z, t0=t0))
         for ch in chunks(grid_type2_ops(Ctx("quick", ctx.seed), rng), 20):
             out.append(one(rng, 2, ch))
